@@ -24,6 +24,7 @@ import (
 	"errors"
 	"fmt"
 	"github.com/nuts-foundation/go-did/did"
+	"github.com/nuts-foundation/nuts-node/core/verifhook"
 	"github.com/nuts-foundation/nuts-node/vcr/credential/store"
 	"slices"
 	"strconv"
@@ -244,6 +245,7 @@ func (s *sqlStore) get(serviceID string, startAfter int) (map[string]vc.Verifiab
 	if err := s.db.Find(&service, "id = ?", serviceID).Error; err != nil {
 		return nil, "", 0, fmt.Errorf("query service '%s': %w", serviceID, err)
 	}
+	verifhook.Point("discovery.get.between", serviceID)
 
 	var rows []presentationRecord
 	err := s.db.Order("lamport_timestamp ASC").Find(&rows, "service_id = ? AND lamport_timestamp > ?", serviceID, startAfter).Error
